@@ -34,6 +34,8 @@ pub struct WorkerStats {
     pub samples: Vec<serde_json::Value>,
     pub determinism_rechecks: u64,
     pub determinism_mismatches: u64,
+    #[serde(default)]
+    pub probed_runs: u64,
 }
 
 #[derive(Serialize, Deserialize, Clone, Debug)]
@@ -88,11 +90,23 @@ pub fn worker(prop: &dyn Property, tier: Tier, batch_seed: u64, start: u64, step
             let _ = o.flush();
         }
         let seed = seed_for(batch_seed, prop.id(), i);
+        crate::probes::set_on(false);
         let scs = prop.gen(seed, tier);
         st.seeds += 1;
         for (k, sc) in scs.iter().enumerate() {
             st.scenarios += 1;
-            let v: Verdict = prop.judge(sc);
+            // tracing probes on a sampled subset of runs
+            let probed = (i / step) % 8 == 0;
+            crate::probes::set_on(probed);
+            let _ = crate::probes::take();
+            let mut v: Verdict = prop.judge(sc);
+            crate::probes::set_on(false);
+            if probed {
+                st.probed_runs += 1;
+                for (k, n) in crate::probes::take() {
+                    *v.probes.entry(k).or_insert(0) += n;
+                }
+            }
             // sampled in-process determinism re-check
             if (i + k as u64) % 64 == 0 {
                 let v2 = prop.judge(sc);
@@ -310,6 +324,7 @@ pub fn run_check(prop: &dyn Property, tier_s: &str, cfg: &CheckConfig) -> i32 {
                 total.inconclusive += s.inconclusive;
                 total.violations += s.violations;
                 total.determinism_rechecks += s.determinism_rechecks;
+                total.probed_runs += s.probed_runs;
                 total.determinism_mismatches += s.determinism_mismatches;
                 total.quiescent_points += s.quiescent_points;
                 total.virtual_time += s.virtual_time;
@@ -519,6 +534,8 @@ pub fn run_check(prop: &dyn Property, tier_s: &str, cfg: &CheckConfig) -> i32 {
             "quiescent_points": total.quiescent_points,
             "max_in_flight": total.max_in_flight,
             "probes": total.probes,
+            "probes_note": "tracing-derived probes (learnt_clause, backjump_*, restart_lazy_clause_conflict, analyze_unsolvable, propagation_conflict, lazy_encode_round) are counted on the sampled subset of runs given by probed_runs; the others on every run",
+            "probed_runs": total.probed_runs,
             "probe_zero": zero_probes,
             "skipped_precondition": total.skipped_pre,
             "aborted_other": total.aborted_other,
